@@ -70,7 +70,7 @@ func (db *DB) handleSubscription(ctx context.Context, r *request.Request) (<-cha
 			s := subRequest.ToSelect(evt.DocID, evt.Cid.String())
 
 			result, err := p.RunSelection(ctx, s)
-			if err == nil && len(result) == 0 {
+			if err == nil && isEmptyResult(result) {
 				txn.Discard(ctx)
 				continue // Don't send anything back to the client if the request yields an empty dataset.
 			}
@@ -91,4 +91,15 @@ func (db *DB) handleSubscription(ctx context.Context, r *request.Request) (<-cha
 	}()
 
 	return resCh, nil
+}
+
+// isEmptyResult returns true if none of the selections in the given result yielded a document.
+func isEmptyResult(result map[string]any) bool {
+	for _, value := range result {
+		docs, ok := value.([]map[string]any)
+		if !ok || len(docs) > 0 {
+			return false
+		}
+	}
+	return true
 }
